@@ -74,6 +74,10 @@ CLAIMED = {
          "Exploration by runtime monitoring: generated declarations (local number/string/table, global, global/local function, table member functions) x comment placement (trailing, block of 1-3 lines above, both, none, detached by a blank line) x script (ASCII, Latin-1, Cyrillic, Greek, CJK, Hangul, astral, mixed) x comment marker; hover at the declaration and at a use must show a label with the identifier, `local` iff declared local, the literal as written (integers, strings), the parameters in order, and as documentation exactly the bytes of the attached comment (trailing comment first, else the block ending on the previous line, else nothing).",
          "The expected comment attachment rule is the one the property states. Float literals are not asserted (the tool prints them in exponent form).",
          "DESIGN.md 3/C13"),
+ "C14": ("online monitor: completion labels at inserted probe sites vs the reference binder's visible-name set at the cursor",
+         "Exploration by runtime monitoring: in generated programs with workspace-unique names a probe `print(<strict prefix>)` is inserted as an unsaved edit at statement boundaries of every block (first statement, right after a declaration, last statement, on the line of `end`, inside nested functions/blocks, end of file); completion right after the prefix must offer every local, parameter and loop variable visible there per Lua's scoping and every workspace global with that prefix, and no local declared later or in a block that does not enclose the cursor.",
+         "DON'T-CARE: a local inside its own declaration statement, the probe word itself, names that also occur as free (global) names, keywords/snippets/built-ins in the list. Probes inside function literals in for headers are finding C14-K1.",
+         "DESIGN.md 3/C14"),
 }
 
 PENDING_REASON = "check not built yet in this revision of /verif (work in progress; see DESIGN.md section 3 for the planned monitor)"
